@@ -30,7 +30,8 @@ DERIVES = ['ctor_Bits', 'ctor_BitArray', 'ctor_ConstBitStream', 'ctor_BitStream'
            'join', 'join_empty', 'fromstring', 'literal', 'literal_other_cls', 'pack_bits', 'pack_kw', 'pack_token_kw', 'dtype_build', 'dtype_parse',
            'read', 'readlist', 'cut', 'split', 'array_from', 'tobitarray', 'tobitarray_roundtrip', 'unpack_bits', 'deepcopy', 'auto_from_bitarray',
            'and_same', 'add_empty_left', 'add_empty_right', 'add_empty_left_literal', 'mul_one', 'lshift0', 'rshift0', 'and_ones', 'cut_whole',
-           'split_nomatch', 'radd_empty_str', 'join_single_self_empty']
+           'split_nomatch', 'radd_empty_str', 'join_single_self_empty', 'empty_append', 'empty_prepend', 'empty_iadd', 'empty_insert', 'empty_setslice',
+           'empty_overwrite0', 'cleared_append', 'cleared_prepend', 'empty_replace_all', 'empty_imul_then_append', 'empty_append_literal', 'empty_prepend_literal']
 ARRAY_DERIVES = ['arr_slice', 'arr_copy', 'arr_from_arr', 'arr_slice_step', 'arr_astype', 'arr_data_copy', 'arr_extend_into_new']
 SOURCE_KINDS = ['bytearray', 'memoryview', 'array', 'bitarray', 'bytesio', 'list', 'memoryview_ro', 'memoryview_slice', 'memoryview_kw', 'memoryview_cast',
                 'array_H', 'bitarray_frozen_src', 'bitarray_buffer', 'bytearray_kw_window']
@@ -323,6 +324,35 @@ class World:
             new = items[0]
         elif how == 'join_single_self_empty':
             new = cls_of(CLASSES[a % 4])().join([x, cls_of(CLASSES[b % 4])()])
+        elif how.startswith(('empty_', 'cleared_')):
+            # a mutable object that is empty (fresh, or emptied by clear()) receives x as its whole content through an in-place operation
+            new = cls_of(MUTABLE[a % 2])() if how.startswith('empty_') else cls_of(MUTABLE[a % 2])('0b1011')
+            if how.startswith('cleared_'):
+                new.clear()
+            lit = ('0b' + xb) if xb else ''
+            what = how.split('_', 1)[1]
+            if what == 'append':
+                new.append(x)
+            elif what == 'prepend':
+                new.prepend(x)
+            elif what == 'append_literal':
+                new.append(lit)
+            elif what == 'prepend_literal':
+                new.prepend(lit)
+            elif what == 'iadd':
+                new += x
+            elif what == 'insert':
+                new.insert(x, 0)
+            elif what == 'setslice':
+                new[0:0] = x
+            elif what == 'overwrite0':
+                new.overwrite(x, 0)
+            elif what == 'replace_all':
+                new.append('0b1')
+                new.replace('0b1', x)
+            elif what == 'imul_then_append':
+                new *= 3
+                new.append(x)
         elif how == 'radd_str':
             new = '0b1' + x
         elif how == 'mul':
@@ -763,10 +793,10 @@ def array_case(draw, tier):
 
 
 SUBCHECKS = [
-    Sub('C04.derive_then_mutate', run_history, strategy=pair_case, ambient=('bytealigned',), examples={'quick': 12000, 'thorough': 200000}),
-    Sub('C04.external_source', run_history, strategy=source_case, ambient=('bytealigned',), examples={'quick': 5000, 'thorough': 60000}),
-    Sub('C04.immutable_surface', run_history, strategy=immutable_case, ambient=('bytealigned',), examples={'quick': 4000, 'thorough': 50000}),
-    Sub('C04.created_values', run_history, strategy=created_case, ambient=('bytealigned',), examples={'quick': 6000, 'thorough': 80000}),
-    Sub('C04.array', run_history, strategy=array_case, ambient=('bytealigned',), examples={'quick': 3000, 'thorough': 40000}),
-    Sub('C04.history', run_history, strategy=history_st(), ambient=('bytealigned',), examples={'quick': 4000, 'thorough': 60000}),
+    Sub('C04.derive_then_mutate', run_history, strategy=pair_case, ambient=('bytealigned', 'lsb0'), examples={'quick': 12000, 'thorough': 200000}),
+    Sub('C04.external_source', run_history, strategy=source_case, ambient=('bytealigned', 'lsb0'), examples={'quick': 5000, 'thorough': 60000}),
+    Sub('C04.immutable_surface', run_history, strategy=immutable_case, ambient=('bytealigned', 'lsb0'), examples={'quick': 4000, 'thorough': 50000}),
+    Sub('C04.created_values', run_history, strategy=created_case, ambient=('bytealigned', 'lsb0'), examples={'quick': 6000, 'thorough': 80000}),
+    Sub('C04.array', run_history, strategy=array_case, ambient=('bytealigned', 'lsb0'), examples={'quick': 3000, 'thorough': 40000}),
+    Sub('C04.history', run_history, strategy=history_st(), ambient=('bytealigned', 'lsb0'), examples={'quick': 4000, 'thorough': 60000}),
 ]
